@@ -2,7 +2,7 @@
    translate/gen_fonts.py regenerates from src/mono_font/generated/*.rs, src/mono_font/mapping.rs and
    the fonts/raw files of the tree under test on every run (property C14, used by C02/C15). *)
 From EG Require Import Base.Prelude Base.Lemmas Model.Geometry Proofs.Geometry Model.Fontmodel Proofs.Fontmodel
-  Gen.FontTable Model.Fontbuiltin.
+  Gen.FontTable Model.Fontbuiltin Proofs.FontGolden.
 From Coq Require Import ZifyBool.
 Set Default Timeout 120.
 
@@ -202,3 +202,105 @@ Qed.
 Theorem builtin_unmapped_is_question_mark b c :
   In b fonts -> ~ In c (builtin_chars b) -> builtin_index b c = builtin_index b 63 /\ In 63 (builtin_chars b).
 Proof. intros H Hn. split; [apply builtin_index_unmapped; assumption|apply builtin_question_mark_mapped; assumption]. Qed.
+
+(* ---- every index a built-in mapping returns is far inside the u32 / i32 range of MonoFont::glyph *)
+Definition index_small_b (b : bfont) : bool :=
+  let f := bf_font b in
+  let top := Z.max (Z.of_nat (length (builtin_chars b))) (builtin_repl b + 1) in
+  (0 <=? builtin_repl b) && (top <? 4294967296) && ((top + 1) * f_ch f <? 2147483648).
+Lemma all_index_small : forallb index_small_b fonts = true.
+Proof. vm_compute. reflexivity. Qed.
+
+Theorem builtin_glyph_index_ok b c : In b fonts -> glyph_index_ok (bf_font b) (builtin_index b c).
+Proof.
+  intros H. pose proof (proj1 (forallb_forall _ _) all_index_small b H) as E. unfold index_small_b in E.
+  destruct (builtin_font_wf b H) as [Hw _]. destruct Hw as (Hok & Hcw & Hch & _).
+  rewrite builtin_index_eq by (auto using builtin_has_mapping).
+  pose proof (index_range (builtin_chars b) (builtin_repl b) c) as Hr.
+  apply glyph_index_small_ok; try lia; nia.
+Qed.
+
+(* ---- end to end: a character of a built-in font shows exactly its atlas cell *)
+Lemma builtin_cell_colour b atlas s c n dx dy :
+  In b fonts -> builtin_index b c = Z.of_nat n ->
+  let f := bf_font b in
+  let gpr := f_iw f / f_cw f in
+  cell_colour (MFont f (builtin_index b) atlas) s c dx dy =
+  if atlas ((Z.of_nat n mod gpr) * f_cw f + dx) ((Z.of_nat n / gpr) * f_ch f + dy) then cs_text s else cs_bg s.
+Proof.
+  intros Hb Hn f gpr. destruct (builtin_font_wf b Hb) as [Hw _]. fold f in Hw. destruct Hw as (Hok & Hcw & Hch & _).
+  unfold cell_colour. cbn [mf_geom mf_index mf_atlas]. fold f.
+  pose proof (builtin_cells_inside b c Hb) as Hv. fold f in Hv. rewrite Hv, Hn.
+  rewrite glyph_area_cell by lia. cbn zeta. cbn [tl px py]. reflexivity.
+Qed.
+
+Theorem builtin_char_shows_its_cell b atlas s text pos bl i c n dx dy :
+  In b fonts ->
+  let f := bf_font b in
+  let F := MFont f (builtin_index b) atlas in
+  draw_ok f pos (length text) -> cs_ul s = DNone -> cs_st s = DNone ->
+  nth_error text i = Some c -> nth_error (builtin_chars b) n = Some c ->
+  0 <= dx < f_cw f -> 0 <= dy < f_ch f ->
+  let gpr := f_iw f / f_cw f in
+  render (fst (draw_string F s text pos bl))
+    (P (px pos + Z.of_nat i * f_cw f + dx) (py pos - baseline_offset f bl + dy)) =
+  if atlas ((Z.of_nat n mod gpr) * f_cw f + dx) ((Z.of_nat n / gpr) * f_ch f + dy) then cs_text s else cs_bg s.
+Proof.
+  intros Hb f F Hd Hu Hs Hi Hn Hdx Hdy gpr.
+  destruct (builtin_font_wf b Hb) as [Hw Hsp]. fold f in Hw, Hsp. destruct Hw as (Hok & _).
+  pose proof (draw_string_cell_plain F s text pos bl i c dx dy) as E. cbn zeta in E.
+  change (mf_geom F) with f in E. rewrite Hsp, Z.add_0_r in E. rewrite E; try assumption.
+  - apply builtin_cell_colour; [assumption|]. apply builtin_index_nth; assumption.
+  - intros c' _. apply builtin_glyph_index_ok. exact Hb.
+Qed.
+
+(* a character that the mapping does not contain shows the cell of '?' *)
+Theorem builtin_unmapped_shows_question_mark b atlas s text pos bl i c n dx dy :
+  In b fonts ->
+  let f := bf_font b in
+  let F := MFont f (builtin_index b) atlas in
+  draw_ok f pos (length text) -> cs_ul s = DNone -> cs_st s = DNone ->
+  nth_error text i = Some c -> ~ In c (builtin_chars b) -> nth_error (builtin_chars b) n = Some 63 ->
+  0 <= dx < f_cw f -> 0 <= dy < f_ch f ->
+  let gpr := f_iw f / f_cw f in
+  render (fst (draw_string F s text pos bl))
+    (P (px pos + Z.of_nat i * f_cw f + dx) (py pos - baseline_offset f bl + dy)) =
+  if atlas ((Z.of_nat n mod gpr) * f_cw f + dx) ((Z.of_nat n / gpr) * f_ch f + dy) then cs_text s else cs_bg s.
+Proof.
+  intros Hb f F Hd Hu Hs Hi Hnc Hn Hdx Hdy gpr.
+  destruct (builtin_font_wf b Hb) as [Hw Hsp]. fold f in Hw, Hsp. destruct Hw as (Hok & _).
+  pose proof (draw_string_cell_plain F s text pos bl i c dx dy) as E. cbn zeta in E.
+  change (mf_geom F) with f in E. rewrite Hsp, Z.add_0_r in E. rewrite E; try assumption.
+  - apply builtin_cell_colour; [assumption|].
+    rewrite (builtin_index_unmapped b c Hb Hnc). apply builtin_index_nth; assumption.
+  - intros c' _. apply builtin_glyph_index_ok. exact Hb.
+Qed.
+
+(* mapped characters of a built-in font occupy pairwise disjoint cells *)
+Theorem builtin_cells_disjoint b c1 c2 p :
+  In b fonts -> In c1 (builtin_chars b) -> In c2 (builtin_chars b) -> c1 <> c2 ->
+  contains (glyph_area (bf_font b) (builtin_index b c1)) p && contains (glyph_area (bf_font b) (builtin_index b c2)) p = false.
+Proof.
+  intros Hb H1 H2 Hne. destruct (builtin_font_wf b Hb) as [Hw _].
+  assert (R : forall c, In c (builtin_chars b) -> 0 <= builtin_index b c).
+  { intros c Hc. rewrite builtin_index_eq by (auto using builtin_has_mapping).
+    destruct (proj1 (list_index_spec (builtin_chars b) (builtin_repl b) c) Hc) as (n & -> & _). lia. }
+  apply glyph_areas_disjoint; auto.
+  intros E. apply Hne. eapply builtin_index_injective; eauto.
+Qed.
+
+(* ---- glyph bitmaps: the files of the tree under test are the committed reference (Proofs/FontGolden.v) *)
+Fixpoint bitmaps_eqb (a b : list (list Z * Z)) : bool :=
+  match a, b with
+  | [], [] => true
+  | (n1, d1) :: s, (n2, d2) :: t => zlist_eqb n1 n2 && (d1 =? d2) && bitmaps_eqb s t
+  | _, _ => false
+  end.
+Lemma bitmaps_eqb_eq a : forall b, bitmaps_eqb a b = true -> a = b.
+Proof.
+  induction a as [|[n1 d1] a IH]; intros [|[n2 d2] b]; cbn [bitmaps_eqb]; try discriminate; auto.
+  intros H. apply andb_prop in H. destruct H as [H H3]. apply andb_prop in H. destruct H as [H1 H2].
+  apply zlist_eqb_eq in H1. apply Z.eqb_eq in H2. subst. f_equal. apply IH. exact H3.
+Qed.
+Theorem builtin_bitmaps_unchanged : map (fun b => (bf_name b, bf_digest b)) fonts = golden_bitmaps.
+Proof. apply bitmaps_eqb_eq. vm_compute. reflexivity. Qed.
